@@ -1,3 +1,4 @@
+import Shisui.Store.CrashSplit
 import Shisui.Store.Reopen
 import Shisui.Store.Refinement
 /-! # C17 — Restart and crash leave a consistent store
@@ -48,10 +49,23 @@ example : DiskOk { items := [(3, 50), (5, 400)], counter := 600 } := by
   refine ⟨by simp [AllLt], by decide, ?_⟩
   intro e he; simp at he; rcases he with rfl | rfl <;> decide
 
+/-! ## Why each step's writes share one batch (negative witnesses for the split layouts) -/
+
+/-- the item outside the batch of its size record: some crash image under-reports -/
+theorem split_put_underreports :
+    (St.batchesOfPutItemFirst (St.init 1000) 5 400).any St.underReports = true := St.split_put_underreports
+
+/-- the size record of a pruning pass ahead of its deletes: some crash image under-reports -/
+theorem size_before_deletes_underreports :
+    (St.batchesOfPutSizeBeforeDeletes (St.run (St.init 1000) [(5, 400), (9, 400), (7, 100)]) 3 50).any St.underReports = true :=
+  St.size_before_deletes_underreports
+
 #print axioms crash_images_ok
 #print axioms last_image
 #print axioms reopen_inv
 #print axioms open_prunes_overcap
 #print axioms open_radius_rule
 #print axioms crash_items_genuine
+#print axioms split_put_underreports
+#print axioms size_before_deletes_underreports
 end Props.C17
